@@ -2,6 +2,7 @@ package main
 
 import (
 	"fmt"
+	"go/constant"
 	"go/token"
 	"go/types"
 	"strings"
@@ -18,7 +19,7 @@ func init() {
 			"(window-keys) every persisted/cached window key is (aligned start, start+8191); (running-precedence) the window of the running filter is never served from the cache or the persisted copy and fetched windows are bounds-checked before caching; " +
 			"(rollover) a completed window is persisted before the running filter moves on; (reorg) a revert drops the shutdown snapshot, and a backward boundary cross drops the persisted copy of the re-entered window, through the revert's writer; (cache-invalidate) every head revert purges the window cache; " +
 			"(init-decision) a stored snapshot is used as-is only if next == head+1 and resumed in place only if next ≤ head ≤ window end, followed by a fill of [next, head], identically for pruning and non-pruning nodes; " +
-			"(store-pairing) block content and index change in the same batch; (page-counter) the continuation counter advances by exactly one per event on every loop path and is not advanced for the event that did not fit; (tags) block/tx/event positions come from the loop indices; (who-writes, locking) the running filter's state changes only in its own methods under its mutex. " +
+			"(store-pairing) block content and index change in the same batch; (page-counter) the continuation counter advances by exactly one per event on every loop path and is not advanced for the event that did not fit; (tags) block/tx/event positions come from the loop indices; (who-writes, locking) the running filter's state changes only in its own methods under its mutex; (negative-evidence, empty-position) the per-block bloom pre-check rules a block out only on the evidence of a failed bloom test, an empty key list selects all blocks of a window, and the exact matcher rejects only against a non-empty alternative list. " +
 			"Not decided: bloom false-positive arithmetic, bitset library behaviour, values of events, concurrency of queries with block import."
 		c09KeyAgreement(c)
 		c09WindowKeys(c)
@@ -30,6 +31,7 @@ func init() {
 		c09StorePairing(c)
 		c09PageCounter(c)
 		c09Locking(c)
+		c09EmptyPosition(c)
 		fieldWriters(c, "who-writes", "core", "RunningEventFilter", []string{"inner", "next"},
 			map[string]string{"insert": "forward step", "onReorg": "inverse step", "ensureInit$1": "lazy initialisation", "ensureInit": "lazy initialisation", "UnmarshalBinary": "decoding a snapshot",
 				"NewRunningEventFilterHot": "constructor", "NewRunningEventFilterLazy": "constructor"})
@@ -680,12 +682,40 @@ func c09PageCounter(c *Ctx) {
 	}
 	for _, f := range fns {
 		c.saw(qname(f))
+		// the loop-carried continuation counter: φ closure (through φ edges and +k updates) of the value returned as the
+		// second result — identified by role, not by the variable's name
 		var phis []*ssa.Phi
-		allInstrs(f, func(in ssa.Instruction) {
-			if ph, ok := in.(*ssa.Phi); ok && ph.Comment == "processedEvents" {
-				phis = append(phis, ph)
+		inSet := map[*ssa.Phi]bool{}
+		var grow func(v ssa.Value, depth int)
+		grow = func(v ssa.Value, depth int) {
+			if depth > 8 {
+				return
 			}
-		})
+			switch x := v.(type) {
+			case *ssa.Phi:
+				if inSet[x] {
+					return
+				}
+				inSet[x] = true
+				phis = append(phis, x)
+				for _, e := range x.Edges {
+					grow(e, depth+1)
+				}
+			case *ssa.BinOp:
+				if x.Op == token.ADD || x.Op == token.SUB {
+					grow(x.X, depth+1)
+				}
+			}
+		}
+		for _, ret := range returnsOf(f) {
+			idx := 1
+			if len(ret.Results) == 1 {
+				idx = 0
+			}
+			if len(ret.Results) > idx {
+				grow(ret.Results[idx], 0)
+			}
+		}
 		if len(phis) < 2 {
 			c.und("page-counter", qname(f), p.Pos(fnPos(f)), "loop-carried processedEvents not found")
 			continue
@@ -801,5 +831,167 @@ func c09Locking(c *Ctx) {
 	}
 	if n < 8 {
 		c.und("locking", "RunningEventFilter methods", "", fmt.Sprintf("only %d methods touching inner/next found", n))
+	}
+}
+
+// c09EmptyPosition: an empty key position (and an empty address list) means "match all" at every level of the index:
+// the per-block bloom pre-check can only answer "no" on the evidence of a failed bloom test, the aggregated filter answers
+// "all blocks" for an empty key list, and the exact matcher rejects a key only against a non-empty alternative set.
+func c09EmptyPosition(c *Ctx) {
+	p := c.P
+	// (1) TestBloom: negative verdicts are backed by a failed bloom test
+	fns := []*ssa.Function{}
+	if f := p.Func("blockchain", "EventMatcher", "TestBloom"); f != nil {
+		fns = append(fns, f)
+	} else {
+		c.und("negative-evidence", "EventMatcher.TestBloom", "", "anchor not found")
+	}
+	for _, fn := range p.sortedFuncs() {
+		if pkgRelOf(fn) == "blockchain" && strings.HasPrefix(fn.Name(), "zzVerifFixtureC09Bloom") {
+			fns = append(fns, fn)
+		}
+	}
+	isBloomTest := func(v ssa.Value) bool {
+		call, ok := v.(*ssa.Call)
+		if !ok {
+			return false
+		}
+		cn := (Site{Instr: call, Callee: call.Call.StaticCallee()}).CalleeName()
+		if call.Call.StaticCallee() != nil {
+			cn = qname(call.Call.StaticCallee())
+		}
+		return strings.HasSuffix(cn, "BloomFilter).Test") || strings.HasSuffix(cn, "slices.ContainsFunc") || strings.Contains(cn, "ContainsFunc[")
+	}
+	// sources of a boolean: constants (with value) and calls, through φ / ! / conversions
+	type srcs struct {
+		constFalse, constTrue, other bool
+		tests                        int
+	}
+	var walk func(v ssa.Value, neg bool, s *srcs, seen map[ssa.Value]bool)
+	walk = func(v ssa.Value, neg bool, s *srcs, seen map[ssa.Value]bool) {
+		if seen[v] {
+			return
+		}
+		seen[v] = true
+		switch x := v.(type) {
+		case *ssa.Phi:
+			for _, e := range x.Edges {
+				walk(e, neg, s, seen)
+			}
+		case *ssa.UnOp:
+			if x.Op == token.NOT {
+				walk(x.X, !neg, s, seen)
+				return
+			}
+			s.other = true
+		case *ssa.Const:
+			b := x.Value != nil && constant.BoolVal(x.Value)
+			if b != neg {
+				s.constTrue = true
+			} else {
+				s.constFalse = true
+			}
+		case *ssa.Call:
+			if isBloomTest(x) {
+				s.tests++
+			} else {
+				s.other = true
+			}
+		default:
+			s.other = true
+		}
+	}
+	for _, f := range fns {
+		c.saw(qname(f))
+		n, nret := 0, 0
+		for _, ret := range returnsOf(f) {
+			if len(ret.Results) != 1 {
+				continue
+			}
+			r := ret.Results[0]
+			nret++
+			construct := fmt.Sprintf("%s: verdict return #%d", qname(f), nret)
+			if k, ok := r.(*ssa.Const); ok {
+				if k.Value != nil && constant.BoolVal(k.Value) {
+					continue // "maybe" needs no evidence
+				}
+				// constant false: the nearest controlling condition must be a failed bloom test (directly or through a flag)
+				fs := factsAt(ret.Ret)
+				okEv := false
+				why := "no controlling condition"
+				if len(fs) > 0 {
+					fct := fs[0] // nearest dominating branch: the condition that selects this return: cond == fct.Pos on this path
+					s := &srcs{}
+					walk(fct.Cond, false, s, map[ssa.Value]bool{})
+					constSame := (fct.Pos && s.constTrue) || (!fct.Pos && s.constFalse)
+					switch {
+					case s.other:
+						why = "the condition that selects this return is not (only) the outcome of bloom tests"
+					case s.tests == 0:
+						why = "the condition that selects this return involves no bloom test"
+					case constSame:
+						why = "the flag that selects this return can take this value without any bloom test (constant initial value)"
+					default:
+						okEv = true
+					}
+				}
+				n++
+				c.check(okEv, "negative-evidence", construct, p.Pos(posOf(ret.Ret, f)), "a block is ruled out only on the evidence of a failed bloom test", "the bloom pre-check answers \"no match\" on a path without a failed bloom test — an empty key position (match-all) or an empty address list rules blocks out: "+why)
+				continue
+			}
+			s := &srcs{}
+			walk(r, false, s, map[ssa.Value]bool{})
+			n++
+			c.check(s.tests > 0 && !s.constFalse && !s.other, "negative-evidence", construct, p.Pos(posOf(ret.Ret, f)), "the verdict is true or the result of a bloom test", "the verdict can be false without a failed bloom test (constant false reaches the result)")
+		}
+		if n == 0 {
+			c.und("negative-evidence", qname(f), p.Pos(fnPos(f)), "no verdict return found")
+		}
+	}
+	c.needFixture("negative-evidence")
+	// (2) aggregated filter: empty key list ⇒ all blocks
+	for _, nm := range []string{"BlocksForKeysInto", "BlocksForKeys"} {
+		f := p.Func("core", "AggregatedBloomFilter", nm)
+		if f == nil {
+			c.und("empty-position", "AggregatedBloomFilter."+nm, "", "anchor not found")
+			continue
+		}
+		okAll, okNone := false, true
+		for _, s := range sitesOf(f) {
+			cn := s.CalleeName()
+			d := p.mustHoldAt(s.Instr)
+			empty, _ := everyDisjunctHas(d, []string{"(len(keys) == 0)"})
+			if neg, _ := everyDisjunctHas(d, []string{"^!", "(len(keys) == 0)"}); neg {
+				empty = false
+			}
+			if strings.HasSuffix(cn, "BitSet).SetAll") && empty && len(d) > 0 {
+				okAll = true
+			}
+			if strings.HasSuffix(cn, "BitSet).ClearAll") && empty {
+				okNone = false
+			}
+		}
+		c.check(okAll && okNone, "empty-position", "AggregatedBloomFilter."+nm, p.Pos(fnPos(f)), "an empty key list selects every block of the window", "an empty key list (match-all position / no address filter) no longer selects all blocks of the window")
+	}
+	// (3) exact matcher: a key is rejected only against a non-empty alternative set
+	if f := p.Func("blockchain", "EventMatcher", "MatchesEventKeys"); f != nil {
+		n := 0
+		for _, ret := range returnsOf(f) {
+			if k, ok := ret.Results[0].(*ssa.Const); !ok || k.Value == nil || constant.BoolVal(k.Value) {
+				continue
+			}
+			d := p.mustHoldAt(ret.Ret)
+			if short, _ := everyDisjunctHas(d, []string{"(len(eventKeys) < len(e.keysMap))"}); short && len(d) > 0 {
+				continue
+			}
+			n++
+			ok, miss := everyDisjunctHas(d, []string{"^!", "(len(e.keysMap[", "== 0)"})
+			c.check(ok, "empty-position", "MatchesEventKeys: reject", p.Pos(posOf(ret.Ret, f)), "a key mismatch rejects the event only if the position lists alternatives", "an event is rejected at a position whose alternative list is empty (match-all): "+miss)
+		}
+		if n == 0 {
+			c.und("empty-position", "MatchesEventKeys", p.Pos(fnPos(f)), "mismatch return not found")
+		}
+	} else {
+		c.und("empty-position", "EventMatcher.MatchesEventKeys", "", "anchor not found")
 	}
 }
